@@ -131,7 +131,7 @@ func (w *World) options() *NoKV.Options {
 	opt.ValueLogHotRingOverride = false
 	opt.WriteHotKeyLimit = 0
 	opt.WriteBatchWait = 0
-	opt.BlockCacheSize = 64
+	opt.BlockCacheSize = 4096
 	opt.BloomCacheSize = 64
 	opt.EnableWALWatchdog = false
 	opt.WALAutoGCInterval = time.Hour
